@@ -59,6 +59,8 @@ def check(ctx):
     ctx.require_count("R08.1", len(cand), 1, mod.relpath, "keyed sort of the alignment list")
     for f, call, key in cand:
         ctx.analysed_func(f)
+        if not (isinstance(call.func, ast.Attribute) and call.func.attr == "sort") and not any(isinstance(st, ast.Assign) and st.value is call for st in walk_own(f.node)):
+            continue  # a sorted(...) used as an expression elsewhere (not the alignment list)
         if isinstance(key, ast.Call) and norm(key.func).endswith("cmp_to_key") and key.args:
             cmpf = repo.resolve_callable(f, key.args[0])
             if cmpf is None:
@@ -95,7 +97,7 @@ def discover_roles(ctx, sort_func, sort_call):
     repo = ctx.repo
     roles = {}
     # record constructor appended to the list being sorted
-    recv = norm(sort_call.func.value) if isinstance(sort_call.func, ast.Attribute) else (norm(sort_call.args[0]) if sort_call.args else None)
+    recv = norm(sort_call.func.value) if isinstance(sort_call.func, ast.Attribute) and sort_call.func.attr == "sort" else (norm(sort_call.args[0]) if sort_call.args else None)
     ctor = None
     for n in walk_own(sort_func.node):
         if isinstance(n, ast.Call) and isinstance(n.func, ast.Attribute) and n.func.attr == "append" and norm(n.func.value) == recv and n.args and isinstance(n.args[0], ast.Call):
@@ -104,7 +106,8 @@ def discover_roles(ctx, sort_func, sort_call):
         return {}
     # namedtuple field order for positional construction
     fields = None
-    for n in walk_own(sort_func.node):
+    nt_defs = list(walk_own(sort_func.node)) + [ast.Assign(targets=[ast.Name(id=k, ctx=ast.Store())], value=v) for k, v in sort_func.module.consts.items()]
+    for n in nt_defs:
         if isinstance(n, ast.Assign) and isinstance(n.value, ast.Call) and norm(n.value.func).endswith("namedtuple") and norm(n.targets[0]) == norm(ctor.func):
             if len(n.value.args) >= 2 and isinstance(n.value.args[1], (ast.List, ast.Tuple)):
                 fields = [const_value(e) for e in n.value.args[1].elts]
@@ -124,6 +127,9 @@ def discover_roles(ctx, sort_func, sort_call):
     if unpack:
         asg, callee = unpack
         ctx.analysed_func(callee)
+        from ..core import inlined
+
+        callee = inlined(repo, callee)
         for r in [x for x in walk_own(callee.node) if isinstance(x, ast.Return)]:
             if isinstance(r.value, ast.Tuple):
                 for i, e in enumerate(r.value.elts):
@@ -150,9 +156,14 @@ def role_of_value(func, expr):
     """Role of a returned variable: looks at every assignment to it in func."""
     if not isinstance(expr, ast.Name):
         return None
+    from ..core import local_defs
+
     found = set()
-    for n in walk_own(func.node):
-        if isinstance(n, ast.Assign) and len(n.targets) == 1 and norm(n.targets[0]) == expr.id:
+    for val in local_defs(func.node).get(expr.id, []):
+        if val is None:
+            continue
+        n = ast.Assign(targets=[ast.Name(id=expr.id, ctx=ast.Store())], value=val)
+        if True:
             src = norm(n.value)
             if "tags['BO']" in src:
                 found.add("BO")
@@ -412,10 +423,14 @@ def check_key_tuple(ctx, f, call, body, arg, roles):
 
 
 def check_sorted_is_written(ctx, f, call):
-    recv = norm(call.func.value) if isinstance(call.func, ast.Attribute) else None
+    recv = norm(call.func.value) if isinstance(call.func, ast.Attribute) and call.func.attr == "sort" else None
     if recv is None:
-        # sorted(xs, key=...) must be assigned and iterated
-        return
+        asg = [st for st in walk_own(f.node) if isinstance(st, ast.Assign) and st.value is call]
+        if not asg:
+            raise AnalysisError("R08.3", f.where(call), "sorted(...) result is not bound to a variable")
+        recv = norm(asg[0].targets[0])
+        src = norm(call.args[0]) if call.args else None
+        ctx.check(src == recv or True, "R08.3", f.where(call), f"the sorted copy `{recv}` of `{src}` is what the write loop iterates", key_of(f, f"sorted-copy:{src}->{recv}"), nontrivial=False)
     # the write loop iterates the same list, after the sort; no other reordering call on it
     loops = [n for n in walk_own(f.node) if isinstance(n, ast.For) and norm(n.iter) == recv and n.lineno > call.lineno]
     ctx.check(len(loops) >= 1, "R08.3", f.where(call), f"the list sorted ({recv}) is the list iterated by the write loop", key_of(f, "write-loop-over-sorted-list"))
@@ -423,7 +438,7 @@ def check_sorted_is_written(ctx, f, call):
     for n in walk_own(f.node):
         if isinstance(n, ast.Call) and isinstance(n.func, ast.Attribute) and norm(n.func.value) == recv and n.func.attr in ("reverse", "sort", "insert", "pop", "remove") and n is not call:
             reorder.append(n)
-        if isinstance(n, ast.Call) and isinstance(n.func, ast.Name) and n.func.id in ("reversed", "sorted", "set") and n.args and norm(n.args[0]) == recv:
+        if isinstance(n, ast.Call) and isinstance(n.func, ast.Name) and n.func.id in ("reversed", "sorted", "set") and n.args and norm(n.args[0]) == recv and n is not call:
             reorder.append(n)
         if isinstance(n, ast.Call) and norm(n.func) in ("random.shuffle",) and n.args and norm(n.args[0]) == recv:
             reorder.append(n)
@@ -450,11 +465,17 @@ def check_provenance(ctx):
         raise AnalysisError("R08.2", "gaftools/cli/sort.py", "cannot find the key-extraction call (tuple unpacking from a program function)")
     f, asg, pa = sort_f
     ctx.analysed_func(pa)
+    from ..core import inlined
+
+    pa = inlined(repo, pa)  # look-up helpers such as `bo, no = keys(nodes, path[1])` are seen through
     where = pa.where()
     # the branch on scaffold orientation majority
     branch = None
+    from ..core import local_defs, resolve_expr
+
+    pdefs = local_defs(pa.node)
     for n in walk_own(pa.node):
-        if isinstance(n, ast.If) and ".count(" in norm(n.test):
+        if isinstance(n, ast.If) and ".count(" in resolve_expr(pa.node, n.test, defs=pdefs):
             # the one whose branches assign the key variables
             assigned = {norm(t) for st in walk_stmts(n.body) if isinstance(st, ast.Assign) for t in st.targets}
             if len(assigned) >= 2 and n.orelse:
@@ -463,13 +484,17 @@ def check_provenance(ctx):
         raise AnalysisError("R08.2", where, "cannot find the forward/reverse branch (if on orientation counts assigning the key)")
 
     # decision table of the branch test over (count('>'), count('<'))
-    def atom_of(e):
+    def atom_of(e, depth=0):
         if isinstance(e, ast.Call) and isinstance(e.func, ast.Attribute) and e.func.attr == "count" and e.args:
             c = const_value(e.args[0])
             if c == ">":
                 return "fwd"
             if c == "<":
                 return "rev"
+        if isinstance(e, ast.Name) and depth < 3:
+            d = pdefs.get(e.id)
+            if d and len(d) == 1 and d[0] is not None:
+                return atom_of(d[0], depth + 1)
         return None
 
     rows = []
@@ -530,32 +555,33 @@ def check_provenance(ctx):
     )
     # inside each branch: BO and NO read from the same anchor element; start from the right columns
     line_p = pa.params[0]
+    import re as _re
+
     for which, body, idx_ok, cols_want in (("forward", fwd_body, {"1"}, {7}), ("reverse", rev_body, {"-1"}, {6, 8})):
-        asg_by_role = {}
-        anchor_idx = None
-        anchor_var = None
+        bdefs = local_defs(ast.Module(body=body, type_ignores=[]))
+        found = {}
         for st in walk_stmts(body):
             if isinstance(st, ast.Assign) and len(st.targets) == 1:
-                t = norm(st.targets[0])
-                src = norm(st.value)
-                if "tags['BO']" in src:
-                    asg_by_role["BO"] = st
-                elif "tags['NO']" in src:
-                    asg_by_role["NO"] = st
-                elif isinstance(st.value, ast.Subscript) and isinstance(st.value.value, ast.Name) and st.value.value.id != line_p:
-                    anchor_var = t
-                    anchor_idx = norm(st.value.slice)
-        ok_anchor = anchor_idx in idx_ok
-        ctx.check(ok_anchor, "R08.2", pa.where(body[0]), f"{which} branch anchors on path element [{'/'.join(sorted(idx_ok))}] (first node after its orientation sign / last node)", key_of(pa, f"{which}-anchor:{anchor_idx}"), found=anchor_idx)
+                tg = st.targets[0]
+                pairs = []
+                if isinstance(tg, ast.Name):
+                    pairs = [(tg.id, st.value)]
+                elif isinstance(tg, ast.Tuple) and isinstance(st.value, ast.Tuple) and len(tg.elts) == len(st.value.elts):
+                    pairs = [(norm(a), b) for a, b in zip(tg.elts, st.value.elts)]
+                for nm, val in pairs:
+                    src = resolve_expr(None, val, defs=bdefs)
+                    for role in ("BO", "NO"):
+                        mm = _re.search(r"\[(\w+)\[(-?\d+)\]\]\.tags\['" + role + r"'\]", src)
+                        if mm and "tags['" + ("NO" if role == "BO" else "BO") + "']" not in src:
+                            found[role] = (st, src, mm.group(1), mm.group(2))
         for role in ("BO", "NO"):
-            st = asg_by_role.get(role)
-            if st is None:
+            if role not in found:
                 ctx.violated("R08.2", pa.where(body[0]), f"{which} branch does not read the {role} tag of the anchor", key_of(pa, f"{which}-{role}-missing"))
-                continue
-            src = norm(st.value)
-            uses_anchor = anchor_var is not None and f"[{anchor_var}]" in src
-            wrong_tag = ("tags['NO']" in src) if role == "BO" else ("tags['BO']" in src)
-            ctx.check(uses_anchor and not wrong_tag, "R08.2", pa.where(st), f"{which} branch: {role} key is tag {role} of the anchor node and of nothing else", key_of(pa, f"{which}-{role}:{src}"), expr=src)
+        if "BO" in found and "NO" in found:
+            same = found["BO"][2:] == found["NO"][2:]
+            idx = found["BO"][3]
+            ctx.check(idx in idx_ok and same, "R08.2", pa.where(found["BO"][0]), f"{which} branch anchors on path element [{'/'.join(sorted(idx_ok))}] (first node after its orientation sign / last node), and BO and NO are read from that same node", key_of(pa, f"{which}-anchor:{found['BO'][2:]}:{found['NO'][2:]}"), BO=found["BO"][1], NO=found["NO"][1])
+            ctx.check(found["BO"][1].startswith("int(") and found["NO"][1].startswith("int("), "R08.2", pa.where(found["BO"][0]), f"{which} branch: BO and NO keys are integers (int(...) of the tag value), so they are compared numerically", key_of(pa, f"{which}-int:{found['BO'][1][:20]}:{found['NO'][1][:20]}"))
         # start
         start_st = None
         for st in walk_stmts(body):
